@@ -1,55 +1,66 @@
 (* C04 -- a command starts only after everything it needs is up to date.
    PART served by the plan / build-loop model (Engine/PlanDefs.v: a transliteration of class Plan
-   of src/build.cc, class Pool of src/state.cc and of the loop of Builder::Build; dyndep-free).
-   All statements are for ALL graphs [g] with an acyclic producer relation ([wf_graph g rank]: a
-   ranking function), ALL -j >= 1, -k >= 1, pool depths and jobserver sizes ([cfg], [g_depths]),
-   ALL snapshots of a dependency scan satisfying [wf_snap] (checked on every replayed trace by the
-   computable [wf_snap_b]), ALL accepted event lists -- i.e. all completion orders, all choices of
-   FindWork among the ready edges, all priority orders of the pools' delayed sets, all failures.
+   of src/build.cc, class Pool of src/state.cc and of the loop of Builder::Build, INCLUDING the dyndep
+   loads made during the build: Builder::LoadDyndeps from Plan::EdgeFinished, Plan::DyndepsLoaded,
+   RefreshDyndepDependents, UnmarkDependents).
+   All statements are for ALL graphs [g] -- with any dyndep-discovered inputs/outputs, which are entries
+   of the graph that exist only once the dyndep file of their edge is loaded -- with an acyclic producer
+   relation ([wf_graph g rank]: a ranking function over the graph with all dyndep information), ALL
+   -j >= 1, -k >= 1, pool depths and jobserver sizes ([cfg], [g_depths]), ALL snapshots of a dependency
+   scan satisfying [wf_snap] (checked on every replayed trace by the computable [wf_snap_b]), ALL
+   [loads] (what the trace says each re-scan after a dyndep load decided; facts the model can check are
+   guards of the transition) and ALL accepted event lists -- i.e. all completion orders, all choices of
+   FindWork among the ready edges, all priority orders of the pools' delayed sets, all iteration orders
+   of dyndep_walk, all failures.
    "The directories exist / the response file holds its content" is not in this model. *)
 From NinjaV Require Import Base.Bytes Engine.PlanDefs Engine.PlanProofs.
 
 (* The invariant of the plan bookkeeping (DESIGN.md Appendix D.3, as it is true of the code). *)
-Theorem C04_plan_inv : forall g cfg rank, wf_graph g rank -> 0 < c_k cfg -> 0 < c_j cfg ->
-  forall s, reachable g cfg s -> s_phase s = PhBuild -> plan_inv g cfg s.
+Theorem C04_plan_inv : forall g cfg loads rank, wf_graph g rank -> 0 < c_k cfg -> 0 < c_j cfg ->
+  forall s, reachable g cfg loads s -> s_phase s = PhBuild -> plan_inv g cfg s.
 Proof. exact plan_inv_reachable. Qed.
 Print Assumptions C04_plan_inv.
 
-(* At every accepted Start, every producer of an input has outputs_ready. *)
-Theorem C04_start_inputs_ready : forall g cfg rank, wf_graph g rank -> 0 < c_k cfg -> 0 < c_j cfg ->
-  forall s e prio s', reachable g cfg s -> step g cfg s (EvStart e prio) = Some s' ->
-  forall i, In i (ins g e) -> p_oready (s_plan s) i = true.
+(* At every accepted Start, every producer of an input -- as known at that moment: manifest, loaded
+   deps, dyndep files loaded so far ([ins_at]) -- has outputs_ready. *)
+Theorem C04_start_inputs_ready : forall g cfg loads rank, wf_graph g rank -> 0 < c_k cfg -> 0 < c_j cfg ->
+  forall s e prio s', reachable g cfg loads s -> step g cfg loads s (EvStart e prio) = Some s' ->
+  forall i, In i (ins_at g (s_plan s) e) -> p_oready (s_plan s) i = true.
 Proof. exact start_inputs_ready. Qed.
 Print Assumptions C04_start_inputs_ready.
 
 (* ... and outputs_ready means: ready at scan time, or finished successfully EARLIER IN THE TRACE (a
    command with exit code 0, or a phony edge), or an edge that was not wanted (kWantNothing at scan
-   time or pruned by restat) and was checked off once its own inputs were ready. *)
-Theorem C04_start_after_producers : forall g cfg rank, wf_graph g rank -> 0 < c_k cfg -> 0 < c_j cfg ->
-  forall prio sn evs s e pr s', wf_snap g sn -> run g cfg prio sn evs = Some s ->
-  step g cfg s (EvStart e pr) = Some s' ->
-  forall i, In i (ins g e) ->
+   time or pruned by restat) and was checked off once its own inputs were ready, or -- after a dyndep
+   load -- an edge the re-scan visited for the first time and judged up to date, or put into want_ as
+   not wanted ([Lorig]: it is named in the [ld_ready]/[ld_added] payload of some load). *)
+Theorem C04_start_after_producers : forall g cfg loads rank, wf_graph g rank -> 0 < c_k cfg -> 0 < c_j cfg ->
+  forall prio sn evs s e pr s', wf_snap g sn -> run g cfg loads prio sn evs = Some s ->
+  step g cfg loads s (EvStart e pr) = Some s' ->
+  forall i, In i (ins_at g (s_plan s) e) ->
     sn_oready sn i = true \/
     ((exists pr', In (EvFinish i 0 pr') evs) \/ (exists pr', In (EvStart i pr') evs /\ phony g i = true)) \/
-    sn_want sn i = Some WNothing \/ In (EvPrune i) evs.
+    sn_want sn i = Some WNothing \/ In (EvPrune i) evs \/
+    ((exists e' L, loads e' = Some L /\ In i (ld_ready L)) \/
+     (exists e' L, loads e' = Some L /\ In (i, false) (ld_added L))).
 Proof. exact start_after_producers. Qed.
 Print Assumptions C04_start_after_producers.
 
-(* Validations impose no ordering: they are not among [ins] (the harness's `vals=` column is not
+(* Validations impose no ordering: they are not among the inputs (the harness's `vals=` column is not
    read by the model at all), and the guard of Start is exactly the following -- a non-phony ready
    edge is started whenever budget, capacity and a token are there. *)
-Theorem C04_validation_no_order : forall g cfg, 0 < c_k cfg -> 0 < c_j cfg ->
+Theorem C04_validation_no_order : forall g cfg loads, 0 < c_k cfg -> 0 < c_j cfg ->
   forall s e prio,
   in_build s = true -> s_waiting s = false -> more_to_do (s_plan s) = true -> 0 < s_fa s ->
   length (s_running s) < c_j cfg -> In e (p_ready (s_plan s)) -> token_ok cfg (s_plan s) = true ->
-  phony g e = false -> exists s', step g cfg s (EvStart e prio) = Some s'.
+  phony g e = false -> exists s', step g cfg loads s (EvStart e prio) = Some s'.
 Proof. exact start_enabled. Qed.
 Print Assumptions C04_validation_no_order.
 
 (* ---- non-vacuity: the example of PlanDefs.v (4 edges, a pool of depth 1) ---- *)
 Example C04_premises_nonvacuous :
   wf_graph ex_graph ex_rank /\ wf_snap ex_graph ex_snap /\ 0 < c_k ex_cfg /\ 0 < c_j ex_cfg /\
-  exists s, run ex_graph ex_cfg ex_prio ex_snap ex_trace_ok = Some s.
+  exists s, run ex_graph ex_cfg no_loads ex_prio ex_snap ex_trace_ok = Some s.
 Proof.
   split; [exact ex_wf_graph|]. split; [exact ex_wf_snap|]. split; [exact ex_cfg_k|]. split; [exact ex_cfg_j|].
   apply is_some_run. vm_compute. reflexivity.
@@ -57,26 +68,52 @@ Qed.
 
 (* the accepted trace reaches a state where command 2 (inputs produced by 0 and 1) is started *)
 Example C04_start_inputs_ready_nonvacuous :
-  exists s s', reachable ex_graph ex_cfg s /\ step ex_graph ex_cfg s (EvStart 2 ex_prio) = Some s' /\
-               ins ex_graph 2 = [0; 1].
+  exists s s', reachable ex_graph ex_cfg no_loads s /\ step ex_graph ex_cfg no_loads s (EvStart 2 ex_prio) = Some s' /\
+               ins_at ex_graph (s_plan s) 2 = [0; 1].
 Proof.
-  destruct (run_snoc_split ex_graph ex_cfg ex_prio ex_snap (firstn 6 ex_trace_ok) (EvStart 2 ex_prio))
+  destruct (run_snoc_split ex_graph ex_cfg no_loads ex_prio ex_snap (firstn 6 ex_trace_ok) (EvStart 2 ex_prio))
     as [s [s' [H1 H2]]]; [vm_compute; reflexivity|].
-  exists s, s'. split; [apply (run_reachable _ _ _ _ _ _ ex_wf_snap H1)|]. split; [exact H2|reflexivity].
+  exists s, s'. split; [apply (run_reachable _ _ _ _ _ _ _ ex_wf_snap H1)|]. split; [exact H2|reflexivity].
 Qed.
 
 (* and it is rejected one step earlier, when 1 has not finished *)
 Example C04_start_too_early_rejected :
-  is_some (run ex_graph ex_cfg ex_prio ex_snap (firstn 5 ex_trace_ok ++ [EvStart 2 ex_prio])) = false.
+  is_some (run ex_graph ex_cfg no_loads ex_prio ex_snap (firstn 5 ex_trace_ok ++ [EvStart 2 ex_prio])) = false.
 Proof. vm_compute. reflexivity. Qed.
 
 Example C04_validation_no_order_nonvacuous :
-  exists s, reachable ex_graph ex_cfg s /\
+  exists s, reachable ex_graph ex_cfg no_loads s /\
     in_build s = true /\ s_waiting s = false /\ more_to_do (s_plan s) = true /\ 0 < s_fa s /\
     length (s_running s) < c_j ex_cfg /\ In 2 (p_ready (s_plan s)) /\ token_ok ex_cfg (s_plan s) = true /\
     phony ex_graph 2 = false.
 Proof.
-  destruct (is_some_run ex_graph ex_cfg ex_prio ex_snap (firstn 6 ex_trace_ok)) as [s Hs]; [vm_compute; reflexivity|].
-  exists s. split; [apply (run_reachable _ _ _ _ _ _ ex_wf_snap Hs)|].
+  destruct (is_some_run ex_graph ex_cfg no_loads ex_prio ex_snap (firstn 6 ex_trace_ok)) as [s Hs]; [vm_compute; reflexivity|].
+  exists s. split; [apply (run_reachable _ _ _ _ _ _ _ ex_wf_snap Hs)|].
   vm_compute in Hs. injection Hs as <-. vm_compute. repeat split; try reflexivity; try lia.
+Qed.
+
+(* ---- with a dyndep load ([dd_graph]: command 2 is bound to the dyndep file produced by 0, which
+   tells that 2 also needs an output of 1) ---- *)
+Lemma dd_wf_graph : wf_graph dd_graph (fun e => e).
+Proof. apply wf_graph_b_sound. vm_compute. reflexivity. Qed.
+Lemma dd_wf_snap : wf_snap dd_graph dd_snap.
+Proof.
+  apply wf_snap_b_sound; [|vm_compute; reflexivity].
+  intros e He. change (n_edges dd_graph) with 4 in He. unfold dd_snap. cbn [sn_want sn_oready].
+  destruct (Nat.ltb_spec e 4); [lia|]. split; reflexivity.
+Qed.
+
+(* before the load 2 has one input (the dyndep file, produced by 0), afterwards two; the accepted
+   trace starts 2 only after 1 has finished, and starting it right after the load is rejected *)
+Example C04_dyndep_nonvacuous :
+  ins_at dd_graph (s_plan (init_state dd_graph dd_cfg [] dd_snap)) 2 = [0] /\
+  (exists s s', reachable dd_graph dd_cfg dd_loads s /\ step dd_graph dd_cfg dd_loads s (EvStart 2 []) = Some s' /\
+                ins_at dd_graph (s_plan s) 2 = [0; 1]) /\
+  is_some (run dd_graph dd_cfg dd_loads [] dd_snap (firstn 4 dd_trace ++ [EvStart 2 []])) = false.
+Proof.
+  split; [vm_compute; reflexivity|]. split; [|vm_compute; reflexivity].
+  destruct (run_snoc_split dd_graph dd_cfg dd_loads [] dd_snap (firstn 6 dd_trace) (EvStart 2 []))
+    as [s [s' [H1 H2]]]; [vm_compute; reflexivity|].
+  exists s, s'. split; [apply (run_reachable _ _ _ _ _ _ _ dd_wf_snap H1)|]. split; [exact H2|].
+  vm_compute in H1. injection H1 as <-. vm_compute. reflexivity.
 Qed.
